@@ -614,6 +614,8 @@ def flow_oracle(case, obs):
             bad.append((f"stream-datum-descriptor", f"datum {did}: descriptor {sd['descriptor']} but event has {e['descriptor']}"))
         if sd["stream_resource"] != f"{dt.get('resource')}-{k}":
             bad.append((f"stream-datum-resource", f"datum {did}: stream_resource {sd['stream_resource']}"))
+        if frame is None and sd["indices"]["stop"] <= sd["indices"]["start"]:
+            bad.append(("stream-datum-ranges:frameless:empty-range", f"datum {did} of event seq_num {e['seq_num']}: indices {sd['indices']} are empty"))
         if frame is None:
             if (sd["indices"]["start"], sd["indices"]["stop"]) != (e["seq_num"] - 1, e["seq_num"]):
                 bad.append(("stream-datum-ranges:frameless:not-seq_num", f"datum {did} of event seq_num {e['seq_num']}: indices {sd['indices']}"))
@@ -623,6 +625,15 @@ def flow_oracle(case, obs):
     for (name, k), items in groups.items():
         items.sort(key=lambda t: t[0])  # event order
         late = [datum_pos.get(did, 10**9) > pos for idx, pos, did, frame, sd in items]
+        conv = [i for i in range(len(items)) if not late[i]] + [i for i in range(len(items)) if late[i]]  # conversion order
+        # an event references at least one frame: an empty range matches no event
+        for n_, i in enumerate(conv):
+            idx, pos, did, frame, sd = items[i]
+            if sd["indices"]["stop"] <= sd["indices"]["start"]:
+                prev_frame = items[conv[n_ - 1]][3] if n_ else None
+                why = "same-frame-number-as-previously-converted-datum" if prev_frame == frame else "other"
+                bad.append((f"stream-datum-ranges:frame:empty-range:{why}", f"stream {name!r} key {k!r}: datum {did} (frame {frame}, previous datum frame {prev_frame}): indices {sd['indices']} are empty"))
+                break
         cur = 0
         increasing = True
         prev_frame = -1
@@ -644,7 +655,6 @@ def flow_oracle(case, obs):
         # earlier event followed by an in-time datum of a later event, AND the observed ranges are exactly what that mechanism
         # yields, the known signature is used; anything else is reported under its own signature.
         deferred_then_immediate = any(late[i] and not late[j] for i in range(len(items)) for j in range(i + 1, len(items)))
-        conv = [i for i in range(len(items)) if not late[i]] + [i for i in range(len(items)) if late[i]]
         carry, index, predicted = 0, 0, {}
         for i in conv:
             start = carry + index
@@ -753,7 +763,7 @@ def gen_legacy(rng, n_events=None, order=None, frames=None, n_ext=None, pages=No
     """A legacy run: resource / datum(_page) / event(_page) documents."""
     n = n_events if n_events is not None else rng.choice([1, 2, 3, 4, 6])
     n_ext = n_ext if n_ext is not None else rng.choice([1, 1, 2, 3])
-    frames = frames if frames is not None else rng.choice(["none", "none", "single", "multi", "reset", "point_number"])
+    frames = frames if frames is not None else rng.choice(["none", "none", "single", "multi", "reset", "point_number", "one_per_file"])
     order = order if order is not None else rng.choice(["early", "early", "late", "mixed", "page_early"])
     pages = pages if pages is not None else rng.random() < 0.3
     shared = shared_resource if shared_resource is not None else rng.random() < 0.5
@@ -789,6 +799,8 @@ def gen_legacy(rng, n_events=None, order=None, frames=None, n_ext=None, pages=No
                 kw = {"frame": i}
             elif frames == "multi":
                 kw = {"frame": 3 * i + 2, "extra": [1, 2]}
+            elif frames == "one_per_file":  # every event writes its own single-frame file: frame 0 each time
+                kw = {"frame": 0}
             else:  # reset: a second file restarts the frame numbering
                 kw = {"frame": i % 2}
             inline = rng.random() < 0.1
@@ -953,7 +965,7 @@ def exhaustive_orderings(n, frames):
                 ("resource", {"uid": "res-0", "spec": "AD_HDF5", "root": "/data", "resource_path": "a.h5", "resource_kwargs": {"frame_per_point": 1}, "path_semantics": "posix", "run_start": "run-1"})]
         for t, i in perm:
             if t == "D":
-                kw = {} if frames == "none" else ({"frame": i} if frames == "single" else {"frame": 2 * i + 1})
+                kw = {} if frames == "none" else ({"frame": i} if frames == "single" else ({"frame": 0} if frames == "zero" else {"frame": 2 * i + 1}))
                 docs.append(("datum", {"datum_id": f"res-0/{i}", "resource": "res-0", "datum_kwargs": kw}))
             else:
                 docs.append(("event", {"uid": f"ev-{i}", "time": 2.0 + i, "seq_num": i + 1, "descriptor": "desc-1", "data": {"x": i, "img0": f"res-0/{i}"}, "timestamps": {"x": 2.0, "img0": 2.0}, "filled": {"img0": False}}))
@@ -987,7 +999,7 @@ def _cases(ctx):
             yield c
     big = ctx.tier == "thorough" or ctx.deep
     for n in ((1, 2, 3) if big else (1, 2)):
-        for fr in ("none", "single", "multi"):
+        for fr in ("none", "single", "multi", "zero"):
             yield from exhaustive_orderings(n, fr)
     # failure injected at every position (and every combination) for small runs
     for n in range(1, 7 if big else 5):
@@ -1019,6 +1031,35 @@ def _flow_requests(case):
     return code, json.dumps({"kind": "flow", "docs": model_docs}), json.dumps({"kind": "alias", "calls": calls}, default=str)
 
 
+def _probe_patch_aliasing():
+    """Examined, not a violation: start/stop/stream_datum get a SHALLOW copy, so a user patch that edits a nested
+    container in place reaches the caller's document (for the deep-copying handlers it cannot)."""
+    from bluesky.callbacks.tiled_writer import RunNormalizer
+
+    out = {}
+    for name, doc, nested in (
+        ("start", {"uid": "u", "time": 0.0, "md": {"a": 1}}, "md"),
+        ("stop", {"uid": "s", "time": 1.0, "run_start": "u", "exit_status": "success", "reason": "", "num_events": {"primary": 1}}, "num_events"),
+        ("stream_datum", {"uid": "sd", "stream_resource": "sr", "descriptor": "d", "indices": {"start": 0, "stop": 1}, "seq_nums": {"start": 1, "stop": 2}}, "indices"),
+        ("datum", {"datum_id": "x/0", "resource": "x", "datum_kwargs": {"a": 1}}, "datum_kwargs"),
+    ):
+        def patch(d, _k=nested):
+            d[_k]["patched"] = 1 if _k != "indices" else 1
+            if _k == "indices":
+                d[_k].pop("patched")
+                d[_k]["stop"] = 2
+            return d
+
+        rn = RunNormalizer(patches={name: patch})
+        before = copy.deepcopy(doc)
+        try:
+            rn(name, doc)
+        except Exception:  # noqa: BLE001
+            pass
+        out[name] = "caller's document changed" if _diff(before, doc) else "caller's document intact"
+    return out
+
+
 def run(ctx, model=True):
     res = C.Result(rule="cases = corpus + every interleaving of n<=2 (thorough: 3) events with their datums x {no frame, frame=i, multi-frame} "
                         "+ every primary-failure pattern for runs of <=4 (6) documents x 4 buffer sizes + random legacy (resource/datum/datum_page, "
@@ -1026,6 +1067,8 @@ def run(ctx, model=True):
                         "(stream_resource old+new layout, stream_datum) / malformed streams; non-trivial = a datum arrives after its event, a page, "
                         "a frame kwarg, a patch, an error, or a primary failure")
     reqs, meta = [], []
+    res.notes.append({"examined: in-place nested edit by a user patch (assumption A-patch)": _probe_patch_aliasing()})
+    res.notes.append("examined: _ConditionalBackup beyond maxlen drops the oldest documents (RunStart first); theorem C35_backup_overflow gives the exact log")
     for case in _cases(ctx):
         jc = _jsonable_case(case)
         if case["kind"] == "backup":
